@@ -105,6 +105,10 @@ func buildClient(o Opts, kind string) *req.Client {
 		c.EnableInsecureSkipVerify().EnableForceHTTP3()
 	} else if kind == "h2" {
 		c.EnableH2C().EnableForceHTTP2()
+		if o.H2ReadIdleMs > 0 {
+			c.SetHTTP2ReadIdleTimeout(time.Duration(o.H2ReadIdleMs) * time.Millisecond)
+			c.SetHTTP2PingTimeout(2 * time.Second)
+		}
 		if o.H2MaxHeaderList > 0 {
 			// the same limit, configured in each of the ways the library offers
 			switch o.H2LimitVia {
@@ -164,7 +168,7 @@ func (w *world) attempt(cs *Case, data [][]byte) *Result {
 	sc := &script{}
 	var peerConns int32
 	for i, rd := range cs.Rounds {
-		sc.rounds = append(sc.rounds, round{Data: data[i], Segs: rd.Segs, End: rd.End, Hold: rd.Hold, Pause: rd.Pause, Steps: rd.Steps, conns: &peerConns})
+		sc.rounds = append(sc.rounds, round{Data: data[i], Segs: rd.Segs, End: rd.End, Hold: rd.Hold, Pause: rd.Pause, Steps: rd.Steps, PingAcks: rd.PingAcks, PingOther: rd.PingOther, conns: &peerConns})
 	}
 	w.peer.scripts.Store(id, sc)
 	defer w.peer.scripts.Delete(id)
